@@ -117,6 +117,10 @@ def make_system(rng: PlanRng, proc):
     base_kind = rng.choice(["zero", "scalar", "vector"], p=[0.4, 0.2, 0.4])
     baseline = {"zero": 0.0, "scalar": float(sig(rng.uniform(0.1, 1.0))),
                 "vector": sig(rng.uniform(0.1, 1.0, n_rec))}[base_kind]
+    if Kkind == "matrix" and base_kind != "vector":
+        # a matrix K with a scalar baseline makes every fit raise (K @ baseline with a
+        # length-1 baseline) at every batch size - not C05's business; give it per-receptor form
+        baseline = np.full(n_rec, float(baseline))
     lb = rng.choice([None, "pos"], p=[0.65, 0.35])
     lbv = None if lb is None else sig(rng.uniform(0.05, 0.4, n_src))
     ubv = sig(rng.uniform(1.0, 10.0, n_src))
